@@ -131,3 +131,29 @@ package standard
 //@ func (*Service).signBeaconAttestations
 //@   requires s != nil && len(committeeIndices) == len(accounts)
 //@   ensures result1 == nil ==> len(result0) == len(accounts)
+
+//@ // ---- C06: the domain types the signer uses are the ones the chain specification names, never invented ----
+//@ // specDT(name): the domain type recorded under that name in the chain specification; hasDT: whether there is one
+//@ spec func specDT(name string) phase0.DomainType
+//@ spec func hasDT(name string) bool
+//@ func domainType
+//@   trusted
+//@   ensures (result1 == nil <==> hasDT(input)) && (result1 == nil ==> result0 == specDT(input))
+//@   modifies nothing
+//@
+//@ // (the options are function values applied to the parameter block: their effect is not modelled, the checks of
+//@ // parseAndCheckParameters on the result are taken as its contract)
+//@ func parseAndCheckParameters
+//@   trusted
+//@   ensures result1 == nil ==> result0 != nil && !isnil(result0.specProvider)
+//@
+//@ func New
+//@   assumes call Spec#1 (r, err): err == nil ==> r != nil
+//@   // the five mandatory types: the specification's, or no signer at all
+//@   ensures result1 == nil ==> result0 != nil && result0.beaconAttesterDomainType == specDT("DOMAIN_BEACON_ATTESTER") && result0.beaconProposerDomainType == specDT("DOMAIN_BEACON_PROPOSER") && result0.randaoDomainType == specDT("DOMAIN_RANDAO") && result0.selectionProofDomainType == specDT("DOMAIN_SELECTION_PROOF") && result0.aggregateAndProofDomainType == specDT("DOMAIN_AGGREGATE_AND_PROOF")
+//@   // the optional types: the specification's when it names one, otherwise none (the duties that need it then refuse to sign)
+//@   ensures result1 == nil ==> (result0.syncCommitteeDomainType != nil <==> hasDT("DOMAIN_SYNC_COMMITTEE")) && (result0.syncCommitteeDomainType != nil ==> deref(result0.syncCommitteeDomainType) == specDT("DOMAIN_SYNC_COMMITTEE"))
+//@   ensures result1 == nil ==> (result0.syncCommitteeSelectionProofDomainType != nil <==> hasDT("DOMAIN_SYNC_COMMITTEE_SELECTION_PROOF")) && (result0.syncCommitteeSelectionProofDomainType != nil ==> deref(result0.syncCommitteeSelectionProofDomainType) == specDT("DOMAIN_SYNC_COMMITTEE_SELECTION_PROOF"))
+//@   ensures result1 == nil ==> (result0.contributionAndProofDomainType != nil <==> hasDT("DOMAIN_CONTRIBUTION_AND_PROOF")) && (result0.contributionAndProofDomainType != nil ==> deref(result0.contributionAndProofDomainType) == specDT("DOMAIN_CONTRIBUTION_AND_PROOF"))
+//@   ensures result1 == nil ==> (result0.applicationBuilderDomainType != nil <==> hasDT("DOMAIN_APPLICATION_BUILDER")) && (result0.applicationBuilderDomainType != nil ==> deref(result0.applicationBuilderDomainType) == specDT("DOMAIN_APPLICATION_BUILDER"))
+//@   ensures result1 == nil ==> (result0.blobSidecarDomainType != nil <==> hasDT("DOMAIN_BLOB_SIDECAR")) && (result0.blobSidecarDomainType != nil ==> deref(result0.blobSidecarDomainType) == specDT("DOMAIN_BLOB_SIDECAR"))
